@@ -365,6 +365,52 @@ void decl_fill(World& w, const DeclH h, const Op& op)
    w.note("decl-fill");
 }
 
+
+// A declaration-set of a primary template built in one go: the same (scope, name, Forall type) declared twice, each
+// declaration with a mapping of its own whose result is set, and (two times out of three) one of them recorded as the
+// definition of the set.  Random single ops reach this state only once in many thousand scripts.
+void op_TEMPLATE_FAMILY(World& w, const Op& op)
+{
+   if (w.foralls.empty() || w.scopes.empty() || w.exprs.empty()) return;
+   DeclH family[2];
+   for (int k = 0; k < 2; ++k) {
+      const std::size_t before = w.decls.size();
+      Op d = op;
+      d.a = 6;   // a primary template; same scope, name and type both times
+      op_DECL(w, d);
+      if (w.decls.size() == before || w.decls.back().kind != 6) return;
+      family[k] = w.decls.back();
+      const std::size_t mbefore = w.mappings.size();
+      Op m{};
+      m.a = op.e;
+      m.b = std::uint8_t(op.f % 4);
+      m.c = std::uint8_t(k);
+      m.d = 1;   // with a result and a type
+      m.e = std::uint8_t(op.f + 11 * k);
+      m.f = op.d;
+      run_mapping_op(w, m);
+      if (w.mappings.size() == mbefore) return;
+      auto mp = w.mappings.back();
+      static_cast<impl::Template*>(family[k].impl)->init = mp;
+      if (auto rec = w.rec_for(static_cast<const Node*>(family[k].decl)))
+         rec->exp("mapping", N(*mp)).exp("parameters", N(mp->inputs)).exp("initializer", Val::any()).exp("result", Val::any());
+   }
+   // (C05 convention: nothing that existed before this op is assigned to -- the definition is recorded only when the
+   // declaration-set was started by this op)
+   bool started_here = true;
+   for_group(w, family[0], [&](const DeclH& d) { started_here = started_here && (d.decl == family[0].decl || d.decl == family[1].decl); });
+   if (op.a % 3 != 0 && (started_here || !w.flags.fill_at_creation)) {
+      const DeclH& defining = family[op.a % 3 - 1];
+      auto t = static_cast<impl::Template*>(defining.impl);
+      t->decl_data.master_data->def = static_cast<const ipr::Template*>(t);
+      for_group(w, defining, [&](const DeclH& d) {   // the definition is a property of the whole declaration-set
+         if (auto x = w.rec_for(static_cast<const Node*>(d.decl))) x->exp("definition", N(*defining.decl));
+      });
+   }
+   w.findings.count("template_families");
+   w.note("template family");
+}
+
 void op_ENUMERATOR(World& w, const Op& op)
 {
    if (w.enums.empty()) return;
@@ -1508,7 +1554,7 @@ void register_decl_ops(std::vector<OpInfo>& t)
    R(PHASED, G_DIR); R(PRAGMA, G_DIR); R(PRAGMA_TOKEN, G_MEMBER);
    R(FORM, G_FORM); R(FORM_FILL, G_FORM); R(ATTR, G_ATTR); R(CAPSPEC, G_ATTR);
    R(NEW_UNIT, G_UNIT); R(NEW_MODULE, G_UNIT); R(MODULE_UNIT, G_UNIT); R(MODULE_FILL, G_UNIT); R(SUBREGION, G_REGION);
-   R(LOCATE, G_HARNESS); R(STMT_ATTR, G_MEMBER); R(JUNK, G_HARNESS); R(BULK, G_HARNESS); R(REPEAT, G_HARNESS); R(PRINT, G_HARNESS); R(LONGSTR, G_HARNESS);
+   R(LOCATE, G_HARNESS); R(STMT_ATTR, G_MEMBER); R(JUNK, G_HARNESS); R(BULK, G_HARNESS); R(REPEAT, G_HARNESS); R(PRINT, G_HARNESS); R(LONGSTR, G_HARNESS); R(TEMPLATE_FAMILY, G_HARNESS);
 #undef R
 }
 
